@@ -2,10 +2,11 @@ import CoclsModel.ChainProofs
 /-!
 # C01 — a future is resolved exactly once, by exactly one winner
 
-Model: `Chain.lean` (micro-step model of `promise::operator()` / `~promise` / `future::set` / `resolve`, validated
-step-for-step against `future.h` / `awaiter.h` by the baton harness).  Every theorem quantifies over **every**
-configuration `c : Cfg` — any number of resolver calls of any payload kind (value, exception, drop), destructor
-agents and waiters of every kind — and **every** schedule (`Reachable c s` = `∃ sched, s = run c (init c) sched`;
+Model: `Chain.lean` (micro-step model of `promise::operator()` / `~promise` / `~promise_with_default` / `future::set` /
+`resolve`, validated step-for-step against `future.h` / `awaiter.h` by the baton harness).  Every theorem quantifies over
+**every** configuration `c : Cfg` — any number of resolver calls of any payload kind (value, exception, drop), destructor
+agents (`Kind.dtor`: `~promise`, resolves to no-value; `Kind.ddef v`: destruction of a `promise_with_default` /
+`_v` / `_vp`, resolves to the default value `v`) and waiters of every kind — and **every** schedule (`Reachable c s` = `∃ sched, s = run c (init c) sched`;
 the proofs are by induction over the schedule through the invariant `Inv` of `ChainProofs.lean`).  The only
 configuration hypothesis, used by the quiescence statements alone, is `WF c`: there is a resolving party at all.
 
@@ -38,6 +39,18 @@ def exCfgD : Cfg :=
       | 1 => Kind.wait WK.hasv
       | _ => Kind.dtor }
 def schedD : List Nat := [0, 0, 1, 1, 1, 2, 2, 2, 2, 0, 1]
+/-- a value resolver, a coroutine waiter, a blocking waiter and the destruction of a `promise_with_default` (default 42) -/
+def exCfgP (withCall : Bool) : Cfg :=
+  { n := 4
+    kind := fun i => match i with
+      | 0 => if withCall then Kind.res (RK.value 7) else Kind.wait WK.hasv
+      | 1 => Kind.wait WK.coro
+      | 2 => Kind.wait WK.sync
+      | _ => Kind.ddef 42 }
+/-- the waiters subscribe; the destructor claims (`xchg owner`), sets the default, exchanges the slot, walks the chain
+(`store` for the blocking waiter, the coroutine resumed when the suspend point is flushed), then the base `~promise`
+loads the owner pointer (null) -/
+def schedP : List Nat := [1, 1, 2, 2, 2, 0, 0, 0, 0, 3, 3, 3, 3, 3, 3, 2, 2, 1]
 
 /-! ## exactly one winner -/
 
@@ -120,19 +133,22 @@ example : (runEv exCfg (init exCfg) schedA).2.count (Ev.ret 0 true) = 1
 /-! ## the result is the winner's payload and is stable -/
 
 /-- **Result = the winner's payload.**  In every reachable state with the slot `ready` there is a recorded winner, it is
-a resolver call or the destructor, and the stored payload is exactly what that agent delivers: `RK.payload` of its
-kind (value / exception / no-value for `drop`) for a resolver call, no-value for the destructor. -/
+a resolver call or a destructor, and the stored payload is exactly what that agent delivers: `RK.payload` of its
+kind (value / exception / no-value for `drop`) for a resolver call, no-value for `~promise`, the default value for
+the destruction of a `promise_with_default`. -/
 theorem c01_result_is_winners (c : Cfg) (s : State) (hr : Reachable c s) (hs : s.slot = Slot.ready) :
     ∃ w, s.winner = some w ∧ w < c.n ∧
-      ((∃ k, c.kind w = Kind.res k ∧ s.payload = k.payload) ∨ (c.kind w = Kind.dtor ∧ s.payload = Outcome.none)) := by
+      ((∃ k, c.kind w = Kind.res k ∧ s.payload = k.payload) ∨ (c.kind w = Kind.dtor ∧ s.payload = Outcome.none)
+        ∨ (∃ v, c.kind w = Kind.ddef v ∧ s.payload = Outcome.val v)) := by
   obtain ⟨w, hw, _, hp⟩ := hr.inv.ready_phase hs
   obtain ⟨h2, h3, _⟩ := hr.inv.winpc w hw
   refine ⟨w, hw, h2, ?_⟩
   unfold winPayload at hp
   cases hk : c.kind w with
   | res k => left; exact ⟨k, rfl, by simpa [hk] using hp⟩
-  | dtor => right; exact ⟨rfl, by simpa [hk] using hp⟩
+  | dtor => right; left; exact ⟨rfl, by simpa [hk] using hp⟩
   | wait k => simp [hk, Kind.cls] at h3
+  | ddef v => right; right; exact ⟨v, rfl, by simpa [hk] using hp⟩
 
 /-- before the resolution nothing is stored: the payload is written only by the winner -/
 theorem c01_no_result_before (c : Cfg) (s : State) (hr : Reachable c s) (hs : s.slot ≠ Slot.ready) :
@@ -144,6 +160,49 @@ theorem c01_no_result_before (c : Cfg) (s : State) (hr : Reachable c s) (hs : s.
 example : (run exCfg (init exCfg) (schedA.take 7)).slot ≠ Slot.ready ∧ (run exCfg (init exCfg) (schedA.take 7)).wins = 1 := by decide
 example : (run exCfg (init exCfg) schedA).slot = Slot.ready ∧ (run exCfg (init exCfg) schedA).payload = Outcome.val 7 := by decide
 example : (run exCfg (init exCfg) schedB).winner = some 1 ∧ (run exCfg (init exCfg) schedB).payload = Outcome.none := by decide
+/-- the new steps are used: nobody calls the promise, `~promise_with_default` wins through its own claim, delivers the
+default, and then runs the base destructor's load (`dFin`) -/
+example : (run (exCfgP false) (init (exCfgP false)) (schedP.take 10)).pc 3 = Pc.rResolve false
+    ∧ (run (exCfgP false) (init (exCfgP false)) (schedP.take 13)).pc 3 = Pc.dFin
+    ∧ (run (exCfgP false) (init (exCfgP false)) schedP).winner = some 3
+    ∧ (run (exCfgP false) (init (exCfgP false)) schedP).payload = Outcome.val 42
+    ∧ Quiescent (exCfgP false) (run (exCfgP false) (init (exCfgP false)) schedP) := by decide
+/-- a call won before: `~promise_with_default` loses its claim (`dLoad`), its base destructor finds the pointer null -/
+example : (run (exCfgP true) (init (exCfgP true)) (schedP.take 10)).pc 3 = Pc.dLoad
+    ∧ (run (exCfgP true) (init (exCfgP true)) schedP).winner = some 0
+    ∧ (run (exCfgP true) (init (exCfgP true)) schedP).payload = Outcome.val 7
+    ∧ Ev.opLoadOwner 3 false ∈ (runEv (exCfgP true) (init (exCfgP true)) schedP).2
+    ∧ Quiescent (exCfgP true) (run (exCfgP true) (init (exCfgP true)) schedP) := by decide
+
+/-! ### move-assignment of a `promise_with_default`
+
+`a = std::move(b)` hands the future `b` owned over to `a`; the object whose destruction finally resolves it is `a`.  The
+pinned code executed `def = std::move(def)` in `operator=`: `a` kept its *own* default (`assignedDefaultAsIs`), so the
+future was not resolved with the payload of the promise that owned it.  Repaired in `/repo` (`def = std::move(other.def)`,
+`assignedDefault`); the harness scenario is `assign-from`. -/
+
+/-- after `a = std::move(b)` (defaults `va`, `vb`) the destruction of `a` resolves the future with `b`'s default -/
+theorem c01_pwd_assign (c : Cfg) (s : State) (hr : Reachable c s) (w va vb : Nat)
+    (hk : c.kind w = Kind.ddef (assignedDefault va vb)) (hw : s.winner = some w) (hs : s.slot = Slot.ready) :
+    s.payload = Outcome.val vb := by
+  obtain ⟨w', hw', _, hp⟩ := c01_result_is_winners c s hr hs
+  rw [hw] at hw'; injection hw' with hw'; subst hw'
+  rcases hp with ⟨k, h1, _⟩ | ⟨h1, _⟩ | ⟨v, h1, h2⟩
+  · rw [hk] at h1; cases h1
+  · rw [hk] at h1; cases h1
+  · rw [hk] at h1; injection h1 with h1; rw [h2, ← h1]; rfl
+
+/-- as-is witness: with the self-move the same scenario (a waiter, nobody calls, `a` with default 61 takes over the future
+of `b` with default 43 and is destroyed) resolves the future with 61 -/
+theorem c01_pwd_assign_asis_witness :
+    let c : Cfg := { n := 2, kind := fun i => if i = 0 then Kind.wait WK.coro else Kind.ddef (assignedDefaultAsIs 61 43) }
+    (run c (init c) [0, 0, 1, 1, 1, 1]).slot = Slot.ready ∧ (run c (init c) [0, 0, 1, 1, 1, 1]).winner = some 1
+      ∧ (run c (init c) [0, 0, 1, 1, 1, 1]).payload = Outcome.val 61
+      ∧ Ev.obs 0 (Obs.val 61) ∈ (runEv c (init c) [0, 0, 1, 1, 1, 1]).2 := by decide
+
+example :
+    let c : Cfg := { n := 2, kind := fun i => if i = 0 then Kind.wait WK.coro else Kind.ddef (assignedDefault 61 43) }
+    (run c (init c) [0, 0, 1, 1, 1, 1]).payload = Outcome.val 43 := by decide
 
 /-- **Stability.**  Once the slot is `ready`, no step of any agent (enabled or not) changes the slot or the payload. -/
 theorem c01_stable (c : Cfg) (s : State) (hr : Reachable c s) (t : Nat) (hs : s.slot = Slot.ready) :
